@@ -32,6 +32,8 @@ def act_harness(a):
         return "raw %d %s" % (a[1], rawhex(a[2]))
     if k in ("tensorr", "tensorl", "mulassign"):
         return "%s %d %s" % (k, a[1], rawhex(a[2]))
+    if k in ("tensorrt", "tensorlt", "mulassignt"):
+        return "%s %d %d %s" % (k, a[3], a[1], rawhex(a[2]))
     if k == "apply":
         return "apply %s" % to_harness(a[1])
     if k in ("probs", "abs", "dump", "polar", "measureall", "vreglen"):
@@ -127,9 +129,9 @@ def model_actions(acts, recs):
             mask = a[1] if k == "measure" else (1 << 64) - 1
             items.append("AMeasure %s %s" % (cN(mask), cN(recs[ri][1])))
             ri += 1
-        elif k in ("tensorr", "mulassign"):
+        elif k in ("tensorr", "mulassign", "tensorrt", "mulassignt"):
             items.append("ATensorR %s %s" % (cN(a[1]), clist([ccomplex(z) for z in a[2]])))
-        elif k == "tensorl":
+        elif k in ("tensorl", "tensorlt"):
             items.append("ATensorL %s %s" % (cN(a[1]), clist([ccomplex(z) for z in a[2]])))
         elif k == "setnum":
             items.append("ASetNum %s" % cN(a[1]))
@@ -219,7 +221,7 @@ def records_agree(ri, rm, tol=TOL):
 def describe_hist(seed, acts):
     d = []
     for a in acts:
-        if a[0] in ("raw", "tensorr", "tensorl", "mulassign"):
+        if a[0] in ("raw", "tensorr", "tensorl", "mulassign", "tensorrt", "tensorlt", "mulassignt"):
             d.append([a[0], a[1], "<%d amplitudes>" % len(a[2])])
         else:
             d.append(list(a) if a[0] != "apply" else ["apply", to_harness(a[1])])
